@@ -62,7 +62,7 @@ InPlaceOkAct ==
     /\ Ev.op = "de_in_place" /\ Ev.ok = 1
     /\ Ev.agree = 1
     /\ owners' = 1 /\ blocks' = (IF Ev.others > 0 THEN 2 ELSE 1)
-    /\ Ev.count = owners' /\ Ev.moved = 1
+    /\ Ev.count = owners' /\ (Ev.kind = "arc" => Ev.moved = 1)   \* (a UniqueArc may reuse its allocation)
     /\ Ev.others_count = Ev.others          \* the old value keeps exactly its other owners
     /\ Ev.value_ok = 1 /\ Ev.others_intact = 1
     /\ Ev.left = 0                        \* nothing is left once every handle is gone
@@ -76,7 +76,13 @@ InPlaceErrAct ==
     /\ Ev.value_ok = 1 /\ Ev.others_intact = 1
     /\ Ev.left = 0
 
-Next == l <= Len(Rec) /\ l' = l + 1 /\ (SerializeAct \/ DeserializeOkAct \/ DeserializeErrAct \/ InPlaceOkAct \/ InPlaceErrAct)
+\* a handle is deserialisable for exactly the lifetimes its payload is
+BoundAct ==
+    /\ Ev.op = "bound"
+    /\ Ev.handle_is = Ev.payload_is
+    /\ UNCHANGED <<owners, blocks>>
+
+Next == l <= Len(Rec) /\ l' = l + 1 /\ (BoundAct \/ SerializeAct \/ DeserializeOkAct \/ DeserializeErrAct \/ InPlaceOkAct \/ InPlaceErrAct)
 Spec == Init /\ [][Next]_vars
 
 TypeOK == owners \in 0..3 /\ blocks \in 0..2
